@@ -5,6 +5,7 @@ package xmpp
 
 import (
 	"fmt"
+	"gosrc.io/xmpp/stanza"
 	"math/rand"
 	"strings"
 	"sync"
@@ -235,6 +236,14 @@ func vfC12Run(run *vfkit.Run, st *vfC12Stream, cs *vfC12Case) {
 		}
 		run.Violation(k+tag, fmt.Sprintf("cut at byte %d (%s): the receive loop has ended with %d error callbacks and %d Disconnected events", cs.K, cs.How, nerr, ndis), map[string]interface{}{"case": cs, "prefix": st.Bytes[:cs.K]})
 		return
+	}
+	// the application, not knowing yet, goes on sending: each of these writes fails, and none of them is another loss
+	if cs.K%4 == 1 {
+		for i := 0; i < 3; i++ {
+			c.Send(stanza.Message{Attrs: stanza.Attrs{Id: fmt.Sprintf("after-the-cut-%d", i), To: "x@y"}, Body: "anyone?"})
+			c.SendRaw("<presence/>")
+		}
+		run.Count("sends_attempted_after_the_cut", 6)
 	}
 	// quiescence: every goroutine of this client is gone
 	var left []string
